@@ -242,8 +242,13 @@ fn special_queries<T: Flt>(x: &[T]) -> Vec<T> {
     vec![T::nan(), T::of(f64::INFINITY), T::of(f64::NEG_INFINITY), hi.up(), lo.down(), hi + (hi - lo) * T::of(3.5), lo - (hi - lo) * T::of(100.0)]
 }
 
-fn queries_for<T: Flt>(rng: &mut Rng, x: &[T]) -> Vec<(QKind, Vec<usize>)> {
+fn queries_for<T: Flt>(rng: &mut Rng, x: &[T], sweep: Option<usize>) -> Vec<(QKind, Vec<usize>)> {
     let _ = x;
+    if let Some(len) = sweep {
+        // batch-length sweep: one rank-1 batch of exactly this length (a path that works in blocks
+        // of any size b accepts a buffer that is wrong by one only when the length is k*b or k*b+1)
+        return vec![(QKind::S1, vec![len])];
+    }
     let mut v = vec![
         (QKind::S1, vec![if rng.chance(0.1) { *rng.pick(&[256usize, 1025, 4097]) } else { 1 + rng.below(4) }]),
         (QKind::S1, vec![0]),
@@ -260,12 +265,12 @@ fn queries_for<T: Flt>(rng: &mut Rng, x: &[T]) -> Vec<(QKind, Vec<usize>)> {
     v
 }
 
-fn case1<T: Elem>(case: u64, args: &Args, ev: &mut Ev) {
+fn case1<T: Elem>(case: u64, args: &Args, ev: &mut Ev, sweep: Option<usize>) {
     let mut rng = Rng::derive(args.seed, "C14", &[case]);
     let spline = case % 3 == 1;
     let extrapolate = rng.chance(0.5);
     // every tenth case has up to five trailing data axes: results with seven and more axes
-    let lane_rank = if case % 10 == 9 { 5 } else { 3 };
+    let lane_rank = if sweep.is_some() { 1 } else if case % 10 == 9 { 5 } else { 3 };
     let (spec, _) = if spline {
         gen_spline_case::<T>(&mut rng, &SplineOpts { max_n: 8, max_lane_rank: lane_rank, extrapolate, ..Default::default() })
     } else {
@@ -313,7 +318,7 @@ fn case1<T: Elem>(case: u64, args: &Args, ev: &mut Ev) {
             c.good_buffer(&mut rng, &format!("interp_into({kq:?}) [query at a knot]"), &lane_shape, &r, &mut |b| interp.one_into(kq, b));
         }
         // batches
-        for (kind, qshape) in queries_for(&mut rng, &x) {
+        for (kind, qshape) in queries_for(&mut rng, &x, sweep) {
             let n: usize = qshape.iter().product();
             let vals: Vec<T> = (0..n).map(|_| rand_in(&mut rng, x[0], x[x.len() - 1])).collect();
             let qa = Query::from_vec(vals, &qshape, kind);
@@ -370,10 +375,10 @@ fn case1<T: Elem>(case: u64, args: &Args, ev: &mut Ev) {
     });
 }
 
-fn case2<T: Elem>(case: u64, args: &Args, ev: &mut Ev) {
+fn case2<T: Elem>(case: u64, args: &Args, ev: &mut Ev, sweep: Option<usize>) {
     let mut rng = Rng::derive(args.seed, "C14", &[case]);
     let extrapolate = rng.chance(0.5);
-    let (spec, _) = gen_grid_case::<T>(&mut rng, &GridOpts { max_nx: 5, max_ny: 4, max_lane_rank: if case % 10 == 9 { 4 } else { 2 }, allow_cluster: false, extrapolate, ..Default::default() });
+    let (spec, _) = gen_grid_case::<T>(&mut rng, &GridOpts { max_nx: 5, max_ny: 4, max_lane_rank: if sweep.is_some() { 1 } else if case % 10 == 9 { 4 } else { 2 }, allow_cluster: false, extrapolate, ..Default::default() });
     ev.count("extrapolate", if extrapolate { "on" } else { "off" });
     let x = spec.axis_x();
     let y = spec.axis_y();
@@ -402,7 +407,7 @@ fn case2<T: Elem>(case: u64, args: &Args, ev: &mut Ev) {
                 c.wrong_buffer_special::<T>(&format!("2-D interp_into({:?}, {:?}) [special query]", sx[k], sy[k]), &s, &kind, &mut |b| interp.one_into(sx[k], sy[k], b));
             }
         }
-        for (kind, qshape) in queries_for(&mut rng, &x) {
+        for (kind, qshape) in queries_for(&mut rng, &x, sweep) {
             let n: usize = qshape.iter().product();
             let vx: Vec<T> = (0..n).map(|_| rand_in(&mut rng, x[0], x[x.len() - 1])).collect();
             let vy: Vec<T> = (0..n).map(|_| rand_in(&mut rng, y[0], y[y.len() - 1])).collect();
@@ -484,13 +489,28 @@ fn case2<T: Elem>(case: u64, args: &Args, ev: &mut Ev) {
 fn main() {
     let args = Args::parse("C14");
     let n = args.budget(400, 40000);
-    let ev = run_sharded(&args, n, |case, ev, _log| {
+    // after the random cases: every batch length 1..=640 (thorough: ..=4200) once through Interp1D
+    // and once through Interp2D, each with its correct buffer and all wrong ones
+    let sweep_max = args.budget(640, 4200);
+    let ev = run_sharded(&args, n + 2 * sweep_max, |case, ev, _log| {
+        if case >= n {
+            let k = case - n;
+            let len = Some(1 + (k / 2) as usize);
+            ev.add("batch_length_sweep_cases", 1);
+            match (k % 2, len.unwrap() % 7 == 3) {
+                (0, false) => case1::<f64>(case, &args, ev, len),
+                (0, true) => case1::<f32>(case, &args, ev, len),
+                (_, false) => case2::<f64>(case, &args, ev, len),
+                (_, true) => case2::<f32>(case, &args, ev, len),
+            }
+            return;
+        }
         let f32_ = case % 5 == 4;
         match (case % 3, f32_) {
-            (2, false) => case2::<f64>(case, &args, ev),
-            (2, true) => case2::<f32>(case, &args, ev),
-            (_, false) => case1::<f64>(case, &args, ev),
-            (_, true) => case1::<f32>(case, &args, ev),
+            (2, false) => case2::<f64>(case, &args, ev, None),
+            (2, true) => case2::<f32>(case, &args, ev, None),
+            (_, false) => case1::<f64>(case, &args, ev, None),
+            (_, true) => case1::<f32>(case, &args, ev, None),
         }
     });
     ev.finish(
